@@ -529,14 +529,22 @@ func Main(ck *Check, tier string) int {
 		}
 		// confirm: the same case must fail identically 5 times
 		if ck.Replay != nil && !strings.HasPrefix(v.Signature, "fatal|") {
+			// each confirmation runs in a fresh process, so that process-global state left behind by
+			// the library (which some properties forbid) cannot mask or fake a failure
 			okAll := true
+			cf := filepath.Join(work, "confirm-"+shortHash(v.Case)+".json")
+			os.WriteFile(cf, v.Case, 0o644)
 			for i := 0; i < 5; i++ {
-				bad, _ := safeReplay(ck, v.Case)
-				if !bad {
+				cmd := exec.Command(self, "confirm", ck.ID, cf)
+				cmd.Env = os.Environ()
+				err := cmd.Run()
+				ee, isExit := err.(*exec.ExitError)
+				if !(isExit && ee.ExitCode() == 1) {
 					okAll = false
 					break
 				}
 			}
+			os.Remove(cf)
 			if !okAll {
 				fmt.Fprintf(os.Stderr, "check %s: a reported case did not reproduce on replay; treated as harness nondeterminism, not a violation: %s\n", ck.ID, v.What)
 				total.Caps = appendUniq(total.Caps, "a candidate violation did not reproduce on replay")
@@ -724,4 +732,17 @@ func stripDigits(s string) string {
 		}
 	}
 	return b.String()
+}
+
+// Confirm re-executes one case file in this (fresh) process: exit status 1 = violates.
+func Confirm(ck *Check, path string) int {
+	b, err := os.ReadFile(path)
+	if err != nil || ck.Replay == nil {
+		return 2
+	}
+	bad, _ := safeReplay(ck, b)
+	if bad {
+		return 1
+	}
+	return 0
 }
